@@ -135,11 +135,41 @@ func Read(r parser.ReadSeekSizer) (*Table, error) {
 
 	_ = itemVarStoreOffset // TODO(voss): implement
 
+	if table.tooLarge() {
+		return nil, &parser.InvalidFontError{
+			SubSystem: "sfnt/opentype/gdef",
+			Reason:    "GDEF table too large",
+		}
+	}
+
 	return table, nil
+}
+
+// tooLarge reports whether, in the layout used by Encode, one of the
+// sub-tables starts beyond the range of the 16-bit offsets in the header.
+func (table *Table) tooLarge() bool {
+	total := 12
+	if table.MarkGlyphSets != nil {
+		total = 14
+	}
+	if table.GlyphClass != nil {
+		total += table.GlyphClass.AppendLen()
+	}
+	if table.MarkAttachClass != nil {
+		if total > 0xFFFF {
+			return true
+		}
+		total += table.MarkAttachClass.AppendLen()
+	}
+	return table.MarkGlyphSets != nil && total > 0xFFFF
 }
 
 // Encode converts the GDEF table to its binary form.
 func (table *Table) Encode() []byte {
+	if table.tooLarge() {
+		panic("GDEF table too large")
+	}
+
 	version := uint32(0x00010000)
 	total := 12
 
